@@ -102,6 +102,7 @@ func ruleC07EqKinds(p *Prog, a *Anchors, r *Report) {
 // different huge unsigned values would be `==` (and ifchanged would not see the change). Where the method returns
 // Integer() == Integer() of its operands as its answer, that is reported.
 func ruleC07EqExact(p *Prog, r *Report, eq *ssa.Function) {
+	defer ruleC07OrderExact(p, r)
 	integer := p.Method("Value", "Integer")
 	if integer == nil {
 		return
@@ -468,5 +469,53 @@ func ruleC07Uintptr(p *Prog, a *Anchors, r *Report) {
 	}
 	if n == 0 {
 		r.Unk("none", "-", "no kind list with Uint64 found")
+	}
+}
+
+// ruleC07OrderExact (an obligation of R-C07-EQKINDS, `ordering:exact`): the ordering operators on integers. A comparison
+// Integer() <op> Integer() of the two operands saturates like the equality did — for uint64 2^63 and 2^64-1 none of
+// <, ==, > holds. Wherever the evaluation of a relational operator (the cluster of relationalExpression.Evaluate)
+// compares two Integer() results with an ordering operator, the comparison stands behind a test that not both operands
+// are integers (the exact comparison took the integers).
+func ruleC07OrderExact(p *Prog, r *Report) {
+	ev := p.Method("relationalExpression", "Evaluate")
+	integer := p.Method("Value", "Integer")
+	isInteger := p.Method("Value", "IsInteger")
+	if ev == nil || integer == nil {
+		return
+	}
+	isIntegerOf := func(v ssa.Value) bool {
+		v = stripLoad(v)
+		c, ok := v.(*ssa.Call)
+		return ok && c.Common().StaticCallee() == integer
+	}
+	n, bad := 0, 0
+	var at ssa.Instruction
+	for _, f := range clusterOf(p, ev, 2) {
+		for _, b := range f.Blocks {
+			for _, in := range b.Instrs {
+				bo, ok := in.(*ssa.BinOp)
+				if !ok || (bo.Op != token.LSS && bo.Op != token.LEQ && bo.Op != token.GTR && bo.Op != token.GEQ) || !isIntegerOf(bo.X) || !isIntegerOf(bo.Y) {
+					continue
+				}
+				n++
+				guarded := isInteger != nil && Guarded(in, func(c ssa.Value, pol bool) bool {
+					cc, ok := c.(*ssa.Call)
+					return ok && !pol && cc.Common().StaticCallee() == isInteger
+				})
+				if !guarded {
+					bad++
+					at = in
+				}
+			}
+		}
+	}
+	switch {
+	case bad > 0:
+		r.Bad("ordering:exact", p.InstrPos(at), "%d of %d ordering comparisons of relational operators compare Integer() with Integer() of the operands without a test that not both are integers: Integer() saturates, so for uint64 2^63 and 2^64-1 (and the largest int next to 2^63) none of <, ==, > holds — {{ a < b }} is False and {{ a >= b }} True although a is the smaller one", bad, n)
+	case n > 0:
+		r.OK("ordering:exact", p.Pos(ev.Pos()), "%d comparisons of Integer() results stand behind a test that not both operands are integers (those are compared exactly)", n)
+	default:
+		r.OK("ordering:exact", p.Pos(ev.Pos()), "no ordering operator compares the saturating Integer() of both operands")
 	}
 }
